@@ -259,7 +259,11 @@ class SyncObj(object):
 
         self.__commandsWaitingCommit = collections.defaultdict(list)  # logID => [(termID, callback), ...]
         self.__commandsLocalCounter = 0
-        self.__commandsWaitingReply = {}  # commandLocalCounter => callback
+        # Distinguishes the ids of forwarded commands of this process from those of an
+        # earlier process with the same address: the reply to a request sent before a
+        # restart must not be matched with a request sent after it.
+        self.__commandsLocalPrefix = os.urandom(8)
+        self.__commandsWaitingReply = {}  # (commandsLocalPrefix, commandLocalCounter) => callback
 
         self.__properies = set()
         for key in self.__dict__:
@@ -508,8 +512,9 @@ class SyncObj(object):
 
                     if callback is not None:
                         self.__commandsLocalCounter += 1
-                        self.__commandsWaitingReply[self.__commandsLocalCounter] = callback
-                        message['request_id'] = self.__commandsLocalCounter
+                        localRequestID = (self.__commandsLocalPrefix, self.__commandsLocalCounter)
+                        self.__commandsWaitingReply[localRequestID] = callback
+                        message['request_id'] = localRequestID
 
                     self.__transport.send(self.__raftLeader, message)
                 else:
